@@ -201,8 +201,8 @@ def closedStep (x : Sess) (toks : List String) : Step :=
           { sess := some x,
             out := s!"r=ok doff={r.cfg.dataOffset} ro={if r.cfg.ro then 1 else 0} fk={kindStr r.cfg.kind} mv={magic} pk={pkOf before x.file} {fileStr x.file} {stateStr x}" }
     | _, _, _, _, _, _, _, _ => { sess := some x, out := "bad-op" }
-  | ["close"] | ["flush"] | ["remove_on_drop", _] => { sess := some x, out := "bad-op" }
-  | _ => { sess := some x, out := "r=closed" }
+  | ["flush"] | ["remove_on_drop", _] => { sess := some x, out := "bad-op" }
+  | _ => { sess := some x, out := "r=closed" }   -- (this includes `close` of a closed case)
 
 /-- the typed allocations are in bounds for the model when the type is a valid one of the table -/
 def step (x : Sess) (toks : List String) : Step :=
